@@ -508,7 +508,8 @@ pub fn case_out(cfg: &Cfg, i: u64) -> CaseOut {
         }
     });
     let sample = (i < 4).then(|| json!({"format": case.fmt, "damage": case.damage, "document": String::from_utf8_lossy(&case.doc.0).chars().take(160).collect::<String>(), "read_plan": case.plan, "values_read": st.values}));
-    CaseOut { viol, tally: tally.0, keys: if nontrivial { vec![key] } else { vec![] }, sample }
+    let digest = hash_str(&format!("{:?}{key}{:?}", tally.0, viol.as_ref().map(|v| &v.class)));
+    CaseOut { digest, viol, tally: tally.0, keys: if nontrivial { vec![key] } else { vec![] }, sample }
 }
 
 fn crash_violation(cfg: &Cfg, i: u64, how: &str) -> Violation {
@@ -572,6 +573,7 @@ fn cli_pass(cfg: &Cfg, tally: &mut Tally, keys: &mut BTreeSet<String>) -> Result
                 }
             };
             let h = wk.run(&world)?;
+            record_digest(10_000_000 + i, h.digest());
             let mut t = Tally::default();
             t.add(format!("cli_runs:{what}"));
             for f in &h.fired {
@@ -626,6 +628,7 @@ pub fn check(cfg: &Cfg) -> Result<i32, Harness> {
         evaluations += 1;
         match r {
             crate::par::CaseEnd::Done(o) => {
+                record_digest(i as u64, o.digest);
                 tally.merge(&Tally(o.tally));
                 keys.extend(o.keys);
                 violations.extend(o.viol);
